@@ -1,9 +1,16 @@
 #!/usr/bin/env python3
-"""summarise vrun JSONL from stdin"""
+"""summarise vrun JSONL from stdin: jl [detail_chars] [max_viol]"""
 import sys,json
-for l in sys.stdin:
+n=int(sys.argv[1]) if len(sys.argv)>1 else 400
+mx=int(sys.argv[2]) if len(sys.argv)>2 else 12
+seen=0
+try:
+  for l in sys.stdin:
     try: j=json.loads(l)
     except Exception as e: print('RAW',l[:300]); continue
-    if j['t']=='violation': print('VIOL',j['sig'], j['section'], j['case']); print(j['detail'][:int(sys.argv[1]) if len(sys.argv)>1 else 800]); print()
-    if j['t']=='inconclusive': print('INCONCL',j)
-    if j['t']=='summary': print({k:(v if k not in('classes','samples') else len(v)) for k,v in j.items()})
+    if j['t']=='violation':
+        seen+=1
+        if seen<=mx: print('VIOL',j['sig'], '@',j['section'], j['case']); print('   ',j['detail'][:n].replace('\n','\n    ')); 
+    if j['t']=='inconclusive' and seen<=mx: print('INCONCL',str(j)[:300])
+    if j['t']=='summary': print({k:(v if k not in('classes','samples') else len(v)) for k,v in j.items()}, 'distinct-sigs',seen)
+except BrokenPipeError: pass
